@@ -583,6 +583,9 @@ class NotchFilterFactory(Transform):
         self.zi = np.zeros(max(len(self.a), len(self.b)) - 1)
 
     def transform(self, samples):
+        if len(samples) == 0:
+            # lfilter returns an undefined final state for an empty input
+            return samples
         samples, self.zi = signal.lfilter(self.b, self.a, samples, zi=self.zi)
         return samples
 
@@ -690,6 +693,9 @@ class BandlimitedNoiseFactory(Carrier):
         self.next(int(np.ceil(self.fs)))
 
     def next(self, samples):
+        if samples == 0:
+            # lfilter returns an undefined final state for an empty input
+            return np.zeros(0)
         waveform = self.state.uniform(low=self.low, high=self.high, size=samples)
         if self.equalize:
             waveform, self.iir_zi = signal.lfilter(self.iir, [1], waveform, zi=self.iir_zi)
@@ -794,6 +800,9 @@ class BandlimitedFIRNoiseFactory(Carrier):
         self.next(len(self.initial_zi + 1))
 
     def next(self, samples):
+        if samples == 0:
+            # lfilter cannot process an empty input
+            return np.zeros(0)
         waveform = self.state.uniform(low=-self.scale, high=self.scale, size=samples)
         waveform, self.zi = signal.lfilter(self.taps, [1], waveform, zi=self.zi)
         return waveform * self.polarity
@@ -880,6 +889,9 @@ class ShapedNoiseFactory(Carrier):
         self.next(len(self.initial_zi + 1))
 
     def next(self, samples):
+        if samples == 0:
+            # lfilter cannot process an empty input
+            return np.zeros(0)
         waveform = self.state.uniform(low=-self.scale, high=self.scale, size=samples)
         waveform, self.zi = signal.lfilter(self.taps, [1], waveform, zi=self.zi)
         return waveform * self.polarity
@@ -963,6 +975,9 @@ class ShapedNoiseFactory(Carrier):
         self.next(len(self.initial_zi + 1))
 
     def next(self, samples):
+        if samples == 0:
+            # lfilter cannot process an empty input
+            return np.zeros(0)
         waveform = self.state.uniform(low=-self.scale, high=self.scale, size=samples)
         waveform, self.zi = signal.lfilter(self.taps, [1], waveform, zi=self.zi)
         return waveform * self.polarity
